@@ -24,6 +24,10 @@ class Ctx:
         return self.facts.mir()
 
     @property
+    def exp(self):
+        return self.facts.exp()
+
+    @property
     def grammar(self):
         if self._g is None:
             self._g = _grammar.Grammar(self.syn)
